@@ -445,6 +445,9 @@ where
 
         let mut shift = -&jac_inv * &derivative;
         guess += &shift;
+        if shift.norm() <= self.tolerance.real() {
+            return Ok(guess);
+        }
 
         while n < 1000 {
             let derivative_last = derivative;
